@@ -32,7 +32,7 @@ def exprAdds (es : Exprs) : List Name := allWL es ++ vWL es
 mutual
   def topAdds : Stmt → List Name
     | .expr _ e => allW e
-    | .assign _ tgts v => exprAdds (one v) ++ (assignAdds tgts ++ tBindsL tgts)
+    | .assign _ tgts v => exprAdds (one v) ++ (assignAdds tgts ++ tNamesL tgts)
     | .annassign _ t ann v => exprAdds (.cons ann v) ++ (lmName t ++ tBinds t)
     | .augassign _ _ v => exprAdds (one v)
     | .imp _ items => impAdds Fixes.all items
